@@ -19,6 +19,24 @@ for mid, prop, f, old, new in MUTANTS:
     status = 'caught by `bin/check %s` (quick)' % prop if r.get('detected') else ('already caught by the 57 baseline tests (not a candidate)' if 'skipped' in r else 'NOT caught')
     srows.append('| %s | %s | %s | %s |' % (mid, prop, f, status))
 ndet = sum(1 for i in ids if res.get(i, {}).get('detected'))
+# harmless changes (benign/)
+broot = '/verif/benign'
+bres = json.load(open(os.path.join(broot, 'RESULTS.json'))) if os.path.exists(os.path.join(broot, 'RESULTS.json')) else {}
+bids = sorted(d for d in os.listdir(broot) if os.path.isdir(os.path.join(broot, d)))
+brows = []
+for bid in bids:
+    m = json.load(open(os.path.join(broot, bid, 'meta.json')))
+    r = bres.get(bid, {})
+    if not r:
+        status = 'not run'
+    elif r.get('silent'):
+        status = 'silent: ' + ' '.join(sorted(r['checks']))
+    else:
+        status = 'ALARM: ' + ' '.join(p for p, o in sorted(r['checks'].items()) if o['exit'] != 0)
+    brows.append('| %s | %s | %s | %s |' % (bid, m['property'], m['summary'].replace('|', '/')[:220], status))
+nsil = sum(1 for i in bids if bres.get(i, {}).get('silent'))
+bnotes = open(os.path.join(broot, 'NOTES.md')).read() if os.path.exists(os.path.join(broot, 'NOTES.md')) else ''
+
 text = '''## 12. Seeded changes and which checks catch them
 
 ### 12.1 Changes written by independent sub-agents
@@ -52,7 +70,26 @@ skipped.
 M25 ("`is_completed()` ignores SIZE_PKG") was missed by the first version of the C08 check (it
 was only visible to C07's histories); C08 now also validates `is_completed()` after every call
 of recorded random histories.
-''' % (ndet, len(ids), '\n'.join(rows), open(os.path.join(root, 'MISSED_AT_FIRST.md')).read(), '\n'.join(srows))
+
+### 12.3 Harmless changes: the checks must stay silent (`benign/`, `tools/benignscreen.py`)
+
+The opposite experiment.  Fresh sub-agents, again given only the text of one property and a scratch
+worktree, were asked for three changes each that a maintainer could commit and that keep the
+property true for every input: genuine refactorings of the central function (another algorithm,
+another data structure, iterators for loops, byte scanning for char scanning, helpers extracted),
+and changes of behaviour the statement leaves open (wording of error messages, which error variant
+is reported where the statement only says "an error", Debug output, buffer sizes, which of two
+faults is reported first).  Each compiles without warnings and passes the existing suite.
+`tools/benignscreen.py` applies each one, runs the existing suite and then the quick check of
+*every* property anchored in a file the patch touches (not only the one the agent saw), and expects
+exit 0 everywhere.  %d of %d are silent.
+
+| id | property given | change (first line of the agent's note) | checks run and result |
+|---|---|---|---|
+%s
+
+%s
+''' % (ndet, len(ids), '\n'.join(rows), open(os.path.join(root, 'MISSED_AT_FIRST.md')).read(), '\n'.join(srows), nsil, len(bids), '\n'.join(brows), bnotes)
 p = '/verif/DESIGN.md'
 s = open(p).read()
 a = s.index('## 12. Seeded changes and which checks catch them')
